@@ -3,6 +3,7 @@
 package checks
 
 import (
+	"strings"
 	"fmt"
 	"reflect"
 	"sort"
@@ -145,6 +146,13 @@ func c07DeepSeeds(thorough bool) []*devSeed {
 				}
 				out = append(out, &devSeed{Name: fmt.Sprintf("bundle-add nested %d deep around %s (core %d), properties %v", d, core.K, ci, withProps), B: b, Marks: marks})
 			}
+		}
+	}
+	// packet-ins whose payload repeats an extension header, an option or a record many times (the
+	// long-chain seeds of C08): the packet decoders run inside Parse
+	for _, sd := range c08Seeds(thorough)["Parse(packet-in)"] {
+		if strings.Contains(sd.Name, "a chain of") && len(sd.B) <= 1500 {
+			out = append(out, &devSeed{Name: sd.Name, B: sd.B, Marks: sd.Marks})
 		}
 	}
 	return out
